@@ -22,6 +22,7 @@ type Profile struct {
 	AvoidKnown  float64 // probability that the run avoids trigger classes of known findings
 	ForkProb    float64 // per block: isolate one transaction's effect with a counterfactual fork
 	LongFrac    float64 // fraction of runs that last > 2000 blocks (bridge-deposit rounds have a 2000-block window)
+	TinyStakes  float64 // probability that plain accounts' genesis delegations are 1..5 whole tokens (small powers: exact half boundaries)
 }
 
 // Gen turns (seed, profile) into a genesis configuration and a stream of HeightPlans.
